@@ -332,11 +332,11 @@ Section Step.
     - intros p. apply npos_bounds. exact Hs.
   Qed.
 
-  Theorem tl_step_law l o : xkey o = false -> law_step vld l o (tl_step vld l o) = [].
+  Theorem tl_core_law l o : xkey o = false -> law_step vld l o (tl_core vld l o) = [].
   Proof.
     intros XK.
-    destruct o as [i v|sl vs|i|sl|v|vs|vs|n|p q|i v|oi|v| |m r| |xi xv|xi|xn]; try discriminate XK; clear XK;
-      unfold tl_step.
+    destruct o as [i v|sl vs|i|sl|v|vs|vs|n|p q|i v|oi|v| |m r| |xi xv|xi|xn|nsl| ]; try discriminate XK; clear XK;
+      unfold tl_core.
     - (* SetInt *)
       rewrite removed_items_int. unfold setitem_int.
       destruct (in_range (zlen l) i) eqn:R.
@@ -479,6 +479,22 @@ Section Step.
       destruct (nonempty l) eqn:NE.
       + eapply law_event; [reflexivity|apply whole_event].
       + apply nonempty_length in NE. subst l. eapply law_silent. reflexivity.
+    - (* SetSliceN *)
+      destruct (getitem_slice_cases l nsl) as [[Hs Hg]|[Hs Hg]]; rewrite Hg.
+      + eapply law_raise; [cbn [builtin]; rewrite Hs; reflexivity|left; reflexivity].
+      + eapply law_raise; [cbn [builtin]; replace (slice_step nsl =? 0) with false by lia; reflexivity|left; reflexivity].
+    - (* ExtendN *)
+      eapply law_raise; [reflexivity|left; reflexivity].
+  Qed.
+
+  (* an index-like argument is converted by operator.index first: the same operation as with the int, judged by the same
+     reference (the built-in list does the same conversion) *)
+  Lemma builtin_deX l o : builtin vld l o = builtin vld l (deX o).
+  Proof. destruct o; reflexivity. Qed.
+
+  Theorem tl_step_law l o : law_step vld l o (tl_step vld l o) = [].
+  Proof.
+    unfold tl_step, law_step. rewrite builtin_deX. apply (tl_core_law l (deX o)). destruct o; reflexivity.
   Qed.
 End Step.
 
@@ -508,18 +524,17 @@ Section Tlo.
     (exists p q e, o = ImulQ p q /\ tlo_step vld mn mx l o = raise e l /\ (e = TypeError \/ e = TraitError)) \/
     tlo_step vld mn mx l o = tlo_step0 vld mn mx l o.
   Proof.
-    destruct o; try (right; reflexivity). left. exists p, q. cbn [tlo_step].
-    destruct (qlen_ok mn mx (zlen l) p q); [exists TypeError|exists TraitError]; auto.
+    right. destruct o; reflexivity.
   Qed.
 
-  Theorem tlo_step0_law mn mx l o : xkey o = false ->
+  Theorem tlo_step0_law mn mx l o :
     law_step vld l o (tlo_step0 vld mn mx l o) = [] \/ tlo_step0 vld mn mx l o = raise TraitError l.
   Proof.
-    intros XK. unfold tlo_step0.
+    unfold tlo_step0.
     destruct (announced l o) as [[n|]|e] eqn:AN.
-    - destruct (len_ok mn mx n); [left; apply tl_step_law; exact XK|right; reflexivity].
-    - left; apply tl_step_law; exact XK.
-    - left. destruct o; cbn [announced] in AN; try discriminate; try discriminate XK.
+    - destruct (len_ok mn mx n); [left; apply tl_step_law|right; reflexivity].
+    - left; apply tl_step_law.
+    - left. destruct o; cbn [announced] in AN; try discriminate.
       + (* SetSlice *)
         destruct (getitem_slice_cases l sl) as [[Hs Hg]|[Hs Hg]]; rewrite Hg in AN; cbn [bind] in AN.
         * inversion AN; subst e.
@@ -544,15 +559,21 @@ Section Tlo.
         inversion AN; subst e.
         assert (delitem_slice l sl = Raise ValueError) as HD by (unfold delitem_slice; rewrite Hs; reflexivity).
         eapply law_raise; [cbn [builtin]; rewrite HD; reflexivity|left; reflexivity].
+      + (* SetSliceN: list(value) raises TypeError first *)
+        inversion AN; subst e. destruct (slice_step sl =? 0) eqn:S0.
+        * eapply law_raise; [cbn [builtin]; rewrite S0; reflexivity|right; left; reflexivity].
+        * eapply law_raise; [cbn [builtin]; rewrite S0; reflexivity|left; reflexivity].
+      + (* ExtendN *)
+        inversion AN; subst e. eapply law_raise; [reflexivity|left; reflexivity].
   Qed.
 
-  Theorem tlo_step_law mn mx l o : xkey o = false ->
+  Theorem tlo_step_law mn mx l o :
     law_step vld l o (tlo_step vld mn mx l o) = [] \/ tlo_step vld mn mx l o = raise TraitError l.
   Proof.
-    intros XK. destruct (tlo_step_split mn mx l o) as [(p & q & e & -> & E & [->| ->])|E]; rewrite E.
+    destruct (tlo_step_split mn mx l o) as [(p & q & e & -> & E & [->| ->])|E]; rewrite E.
     - left. eapply law_raise; [reflexivity|left; reflexivity].
     - right. reflexivity.
-    - apply tlo_step0_law. exact XK.
+    - apply tlo_step0_law.
   Qed.
 End Tlo.
 
@@ -560,14 +581,10 @@ End Tlo.
 Section Hist.
   Variable vld : Z -> option Z.
 
-  (* histories in which every integer argument is an int (or converts like one: see [xkey]) *)
-  Definition xfree (ops : list op) : bool := forallb (fun o => negb (xkey o)) ops.
-
-  Theorem run_law : forall ops l i, xfree ops = true -> law_hist vld i l (run (tl_step vld) l ops) = [].
+  Theorem run_law : forall ops l i, law_hist vld i l (run (tl_step vld) l ops) = [].
   Proof.
-    induction ops as [|o ops IH]; intros l i XF; cbn [run law_hist]; [reflexivity|].
-    cbn in XF. apply andb_true_iff in XF. destruct XF as [X1 X2]. apply negb_true_iff in X1.
-    rewrite (tl_step_law vld l o X1), (IH _ _ X2). reflexivity.
+    induction ops as [|o ops IH]; intros l i; cbn [run law_hist]; [reflexivity|].
+    rewrite tl_step_law, IH. reflexivity.
   Qed.
 
   (* histories on a TraitListObject: the steps refused for length reasons are
@@ -583,12 +600,10 @@ Section Hist.
         ++ law_hist_tlo (i + 1) (o_after ob) r
     end.
 
-  Theorem run_law_tlo mn mx : forall ops l i, xfree ops = true ->
-    law_hist_tlo i l (run (tlo_step vld mn mx) l ops) = [].
+  Theorem run_law_tlo mn mx : forall ops l i, law_hist_tlo i l (run (tlo_step vld mn mx) l ops) = [].
   Proof.
-    induction ops as [|o ops IH]; intros l i XF; cbn [run law_hist_tlo]; [reflexivity|].
-    cbn in XF. apply andb_true_iff in XF. destruct XF as [X1 X2]. apply negb_true_iff in X1.
-    rewrite (IH _ _ X2), app_nil_r. destruct (tlo_step_law vld mn mx l o X1) as [H|H].
+    induction ops as [|o ops IH]; intros l i; cbn [run law_hist_tlo]; [reflexivity|].
+    rewrite IH, app_nil_r. destruct (tlo_step_law vld mn mx l o) as [H|H].
     - rewrite H. destruct (refused l (tlo_step vld mn mx l o)); reflexivity.
     - rewrite H. unfold refused, raise. cbn. rewrite zlist_eqb_refl. reflexivity.
   Qed.
@@ -639,28 +654,6 @@ End Read.
 Section Named.
   Variable vld : Z -> option Z.
 
-  (* F26: an operation whose integer argument is an object with __index__ only raises TypeError (untouched, silent)
-     where the built-in list proceeds: only the comparison with the built-in list (clauses 1, 2, 9) can fail *)
-  Lemma x_step_codes l o c :
-    xkey o = true -> In c (law_step vld l o (tl_step vld l o)) -> c = 1 \/ c = 2 \/ c = 9.
-  Proof.
-    intros X H. destruct o; try discriminate X; unfold law_step, tl_step, raise in H;
-      cbn [o_out o_after o_events o_ret forallb length is_ok is_raise negb is_nil] in H;
-      rewrite zlist_eqb_refl in H; cbn [negb andb orb Nat.leb chk app] in H;
-      repeat match type of H with
-             | context [chk ?k ?b] => lazymatch b with true => fail | false => fail | _ => destruct b eqn:? end
-             end; cbn in H; intuition lia.
-  Qed.
-
-  Theorem law_codes_of_a_step l o c :
-    In c (law_step vld l o (tl_step vld l o)) -> xkey o = true /\ (c = 1 \/ c = 2 \/ c = 9).
-  Proof.
-    intros H. destruct (xkey o) eqn:X.
-    - split; [reflexivity|eapply x_step_codes; eassumption].
-    - rewrite (tl_step_law vld l o X) in H. contradiction.
-  Qed.
-
-  (* everything the law says besides that comparison holds of every operation *)
   Lemma weak l o :
     let ob := tl_step vld l o in
     (is_raise (o_out ob) = true -> o_after ob = l /\ o_events ob = []) /\
@@ -669,23 +662,21 @@ Section Named.
     (forall ev, In ev (o_events ob) ->
        replay l ev = Some (o_after ob) /\ normal_form (zlen l) ev = true /\ removed_selected l ev = true).
   Proof.
-    destruct (xkey o) eqn:X.
-    - destruct o; try discriminate X; cbn; repeat split; auto; try contradiction; congruence.
-    - destruct (law_step_inv vld l o (tl_step vld l o) (tl_step_law vld l o X)) as (_ & _ & A & B & C & D & _).
-      cbv zeta. auto.
+    destruct (law_step_inv vld l o (tl_step vld l o) (tl_step_law vld l o)) as (_ & _ & A & B & C & D & _).
+    cbv zeta. auto.
   Qed.
 
   Lemma step_replay l o ev : In ev (o_events (tl_step vld l o)) -> replay l ev = Some (o_after (tl_step vld l o)).
   Proof. intros H. destruct (weak l o) as (_ & _ & _ & E). apply (E ev H). Qed.
 
-  Lemma step_refines l o : xkey o = false ->
+  Lemma step_refines l o :
     let ob := tl_step vld l o in
     let sr := builtin vld l o in
     outcome_ok (o_out ob) sr = true /\
     o_after ob = (match fst sr with Ok (l', _) => l' | Raise _ => l end) /\
     o_ret ob = (match fst sr with Ok (_, r) => r | Raise _ => None end).
   Proof.
-    intros X. destruct (law_step_inv vld l o (tl_step vld l o) (tl_step_law vld l o X)) as (A & B & _ & _ & _ & _ & C).
+    destruct (law_step_inv vld l o (tl_step vld l o) (tl_step_law vld l o)) as (A & B & _ & _ & _ & _ & C).
     cbv zeta. auto.
   Qed.
 
@@ -732,20 +723,16 @@ Section Named.
 End Named.
 
 (* ---------- refinement at the level of histories ---------- *)
-Theorem run_refines_pylist (vld : Z -> option Z) : forall ops l, xfree ops = true ->
+Theorem run_refines_pylist (vld : Z -> option Z) : forall ops l,
   map (fun p => o_after (snd p)) (run (tl_step vld) l ops) = pylist_run vld l ops.
 Proof.
-  induction ops as [|o ops IH]; intros l XF; cbn [run pylist_run map]; [reflexivity|].
-  cbn in XF. apply andb_true_iff in XF. destruct XF as [X1 X2]. apply negb_true_iff in X1.
-  destruct (step_refines vld l o X1) as (_ & HA & _). cbv zeta in HA. cbn [snd]. rewrite HA, (IH _ X2). reflexivity.
+  induction ops as [|o ops IH]; intros l; cbn [run pylist_run map]; [reflexivity|].
+  destruct (step_refines vld l o) as (_ & HA & _). cbv zeta in HA. cbn [snd]. rewrite HA, IH. reflexivity.
 Qed.
 
-(* F26 witness: inserting at an index given as an object with __index__ *)
-Lemma index_object_witness :
-  law_step (vld_of VAll) [1] (InsertX 0 5) (tl_step (vld_of VAll) [1] (InsertX 0 5)) = [1; 2]
-  /\ law_step (vld_of VAll) [1; 2] (PopX 0) (tl_step (vld_of VAll) [1; 2] (PopX 0)) = [1; 2; 9]
-  /\ law_step (vld_of VAll) [1] (ImulX 2) (tl_step (vld_of VAll) [1] (ImulX 2)) = [1; 2].
-Proof. vm_compute. repeat split; reflexivity. Qed.
+(* F26 (repaired by 40e8e0f): an index-like argument behaves as the int it converts to *)
+Lemma index_like_is_int (vld : Z -> option Z) l o : tl_step vld l o = tl_step vld l (deX o).
+Proof. unfold tl_step. destruct o; reflexivity. Qed.
 
 (* ---------- copies ---------- *)
 Lemma vld_all_fix (vld : Z -> option Z) l :
@@ -774,5 +761,5 @@ Qed.
 
 (* whatever the validator, the copy holds validated items only and the history on it obeys the list law *)
 Theorem law_on_a_copy (vld : Z -> option Z) k l l' :
-  tl_copy vld k l = Ok l' -> forall ops i, xfree ops = true -> law_hist vld i l' (run (tl_step vld) l' ops) = [].
+  tl_copy vld k l = Ok l' -> forall ops i, law_hist vld i l' (run (tl_step vld) l' ops) = [].
 Proof. intros _ ops i. apply run_law. Qed.
